@@ -141,7 +141,14 @@ def extract_profile():
         if not any(f < i_set for f in fences): fb = False
         if not any(f > i_set for f in fences): fa = False
         if re.search(r'\.(?:prod|work|cons)_alive\(\)', body): problems.append(f'buf_ref.rs: set_{nm}_alive reads liveness flags separately')
-        if not re.search(r'if\s+last\s*\{\s*self\.drop\(\)', body): problems.append(f'buf_ref.rs: set_{nm}_alive: unexpected release condition')
+        direct = re.search(r'if\s+last\s*\{\s*self\.drop\(\)', body)
+        via = None
+        hm = re.search(r'self\.(\w+)\(\s*last\s*\)', body)
+        if not direct and hm:
+            # one level of private helper: fn h(&mut self, x: bool) { if x { self.drop(); } }
+            fm = re.search(r'fn\s+' + hm.group(1) + r'\s*\(\s*&mut\s+self\s*,\s*(\w+)\s*:\s*bool\s*\)\s*\{\s*if\s+(\w+)\s*\{\s*self\.drop\(\)\s*;?\s*\}\s*\}', br)
+            via = fm and fm.group(1) == fm.group(2)
+        if not direct and not via: problems.append(f'buf_ref.rs: set_{nm}_alive: unexpected release condition')
     prof = (weakest(idx_loads, 'acq'), weakest(idx_stores, 'rel'), weakest(alive_rmws, 'both'), weakest(alive_loads, 'acq'), fb, fa)
     return prof, rmw_decides, problems
 
@@ -225,6 +232,34 @@ def extract_vmem():
     for mm in re.finditer(r'(shm_fd\s*\(|libc::shm_open\s*\(|libc::memfd_create\s*\(|libc::mmap\s*\(|libc::memcpy\s*\(|copy_nonoverlapping\s*\(|libc::close\s*\(|for\s+(\w+)\s+in\s+\[([^\]]*)\])', body):
         events.append(mm)
     loop_var = None; loop_vals = []; loop_end = -1
+    # local names do not matter: `let` bindings of plain expressions (arithmetic, casts, .byte_add/.add) are substituted, and the
+    # variable bound to the reserving mmap (null address) is called `buffer`
+    lets = {}; base_var = None
+    for lm in re.finditer(r'\blet\s+(?:mut\s+)?(\w+)\s*(?::[^=;]+)?=\s*(.*?);', body, re.S):
+        nm, rhs = lm.group(1), ' '.join(lm.group(2).split())
+        if rhs.startswith('libc::mmap'):
+            a0, _ = args_of(rhs, rhs.index('('))
+            if a0 and a0[0].replace(' ', '') in ('ptr::null_mut()', 'core::ptr::null_mut()') and base_var is None: base_var = nm
+            continue
+        if re.search(r'\w\s*\(', re.sub(r'\.(?:byte_add|add)\s*\(', '.OP[', rhs)): continue      # a call: not a plain expression
+        lets[nm] = rhs
+    def resolve(e):
+        def sub(m):
+            n = m.group(0)
+            if n in lets and n != base_var:
+                r = lets[n]
+                return '(' + r + ')' if ' ' in r else r
+            return n
+        for _ in range(6):
+            e2 = re.sub(r'\b[A-Za-z_]\w*\b', sub, e)
+            if e2 == e: break
+            e = e2
+        if base_var: e = re.sub(r'\b' + base_var + r'\b', 'buffer', e)
+        e = re.sub(r'\s+as\s+\*mut\s+UnsafeSyncCell<T>', '', e).strip()
+        e = re.sub(r'(?<![\w>])\(\s*(\w+)\s*\)', r'\1', e)
+        while e.startswith('(') and e.endswith(')') and e.count('(') == e.count(')') and '(' not in e[1:-1].split(')')[0]:
+            e = e[1:-1].strip()
+        return e
     def half_of(expr):
         e = expr.replace(' ', '')
         if e in ('buffer', 'ptr::null_mut()', 'core::ptr::null_mut()'): return 'Lo'
@@ -251,8 +286,9 @@ def extract_vmem():
             a, _ = args_of(body, mm.end() - 1)
             if len(a) != 6: problems.append('mmap with %d arguments' % len(a)); continue
             addr, ln, prot, flags, fd, off = [x.strip() for x in a]
-            addrs = [addr]
-            if in_loop and addr == loop_var: addrs = [v.strip() for v in loop_vals]
+            ln = resolve(ln)
+            addrs = [resolve(addr)]
+            if in_loop and addr == loop_var: addrs = [resolve(v.strip()) for v in loop_vals]
             for ad in addrs:
                 if ad.replace(' ', '') in ('ptr::null_mut()', 'core::ptr::null_mut()'):
                     f = re.match(r'(\d+)\s*\*\s*size', ln.replace('aslibc::size_t', '').replace(' as libc::size_t', '').strip())
@@ -272,7 +308,7 @@ def extract_vmem():
         elif tok.startswith('libc::memcpy') or tok.startswith('copy_nonoverlapping'):
             a, _ = args_of(body, mm.end() - 1)
             if len(a) != 3: problems.append('copy with %d arguments' % len(a)); continue
-            x, y, n = [z.strip() for z in a]
+            x, y, n = [resolve(z.strip()) for z in a]
             dst, src = (x, y) if tok.startswith('libc::memcpy') else (y, x)
             to_map = re.match(r'\(?\s*r\b', dst) is not None or dst.startswith('buffer')
             from_val = 'value' in src
@@ -348,8 +384,10 @@ def extract_page_round(problems):
         names = {'min_size': 'm'}
         for st in stmts[:-1]:
             lm = re.fullmatch(r'let (\w+) = page_size\(\)', st)
+            if lm: names[lm.group(1)] = 'page'; continue
+            lm = re.fullmatch(r'let (\w+) = (.+)', st, re.S)
             if not lm: raise SyntaxError(f'unrecognised statement `{st}`')
-            names[lm.group(1)] = 'page'
+            names[lm.group(1)] = rust_expr_to_coq(lm.group(2), names)       # a let-bound sub-expression
         return rust_expr_to_coq(stmts[-1], names)
     except (SyntaxError, OSError) as e:
         problems.append(f'page rounding: {e}')
@@ -410,8 +448,9 @@ class KP:
                 stmts.append(('block', inner))
             elif s.peek() == 'if':
                 e = s.expr()
-                if s.peek() == ';': s.eat()
-                stmts.append(('expr', e))
+                if s.peek() == ';': s.eat(); stmts.append(('expr', e))
+                elif s.peek() == end or s.peek() is None: stmts.append(('ret', e))     # tail expression: the block's value
+                else: stmts.append(('expr', e))
             else:
                 e = s.expr()
                 if s.peek() == '=':
@@ -564,14 +603,35 @@ def extract_kernels():
         chunks = []
         for m in re.finditer(r'#\[cfg\(not\(feature = "vmem"\)\)\]\s*#\[inline\]\s*fn\s+(next_chunk(?:_mut)?)\b(.*?)\n    \}', txt, re.S):
             bodyc = m.group(2)
-            cond = re.search(r'if\s+(.*?)\s*\{', bodyc[bodyc.index('let ptr'):]).group(1)
-            lens = []
-            for fm in re.finditer(r'from_raw_parts(?:_mut)?\s*\(', bodyc):
-                a, _ = args_of(bodyc, fm.end() - 1)
-                if len(a) == 2: lens.append((a[0].strip(), a[1].strip()))
-            if len(lens) != 3: raise SyntaxError(f'{m.group(1)}: expected 3 slices, found {len(lens)}')
+            # `if <cond> { A } else { B }` after `let ptr`: the branch with two slices is the wrapping one (either order accepted)
+            rest = bodyc[bodyc.index('let ptr'):]
+            im = re.search(r'\bif\s+(.*?)\s*\{', rest)
+            cond = im.group(1)
+            def block(txt, i):
+                d = 0
+                for j in range(i, len(txt)):
+                    if txt[j] == '{': d += 1
+                    elif txt[j] == '}':
+                        d -= 1
+                        if d == 0: return txt[i + 1:j], j
+                raise SyntaxError('unbalanced braces')
+            then_b, j = block(rest, im.end() - 1)
+            em = re.match(r'\s*else\s*\{', rest[j + 1:])
+            if not em: raise SyntaxError(f'{m.group(1)}: if without else')
+            else_b, _ = block(rest, j + 1 + em.end() - 1)
+            def slices(blk):
+                r = []
+                for fm in re.finditer(r'from_raw_parts(?:_mut)?\s*\(', blk):
+                    a, _ = args_of(blk, fm.end() - 1)
+                    if len(a) == 2: r.append((a[0].strip(), a[1].strip()))
+                return r
+            ts, es = slices(then_b), slices(else_b)
+            if len(ts) == 2 and len(es) == 1: wrap, nowrap, neg = ts, es, False
+            elif len(ts) == 1 and len(es) == 2: wrap, nowrap, neg = es, ts, True
+            else: raise SyntaxError(f'{m.group(1)}: expected a 2-slice and a 1-slice branch, found {len(ts)} / {len(es)}')
+            lens = [wrap[0], wrap[1], nowrap[0]]
             g = KGen()
-            cc = g.expr(KP(klex(cond)).expr(), lambda x: 'ret ' + x)
+            cc = g.expr(KP(klex(cond)).expr(), lambda x: 'ret ' + (f'(negb {x})' if neg else x))
             hl = g.expr(KP(klex(lens[0][1])).expr(), lambda x: 'ret ' + x)
             tl = g.expr(KP(klex(lens[1][1])).expr(), lambda x: 'ret ' + x)
             nl = g.expr(KP(klex(lens[2][1])).expr(), lambda x: 'ret ' + x)
